@@ -225,6 +225,18 @@ def run_world(plan, world=None):
     tr.gate_state = st
 
   # --- client
+  floor = plan.get('tag_state')
+  if floor:
+    # a long-lived connection: the tag counter of every mux connection of this client starts at a high-water mark
+    import scales.mux.sink as _muxsink
+    orig_init = _muxsink.TagPool.__init__
+
+    def _init(self, *a, **k):
+      orig_init(self, *a, **k)
+      self._next = max(self._next, floor[0])
+      self._set.update(floor[1])      # low tags that were answered and returned; the others were abandoned in transit
+    _muxsink.TagPool.__init__ = _init
+    World.current.cleanups.append(lambda: setattr(_muxsink.TagPool, '__init__', orig_init))
   ss = plan['serverset']
   if stack == 'thrift':
     b = Thrift.NewBuilder(iface)
